@@ -22,6 +22,9 @@ cmp -s $B/Tables.v.new $V/coq/gen/Tables.v || cp $B/Tables.v.new $V/coq/gen/Tabl
 python3 $V/tools/c06table.py --coq $B/C06Table.v.new >>$log 2>&1 || fail c06table
 cmp -s $B/C06Table.v.new $V/coq/gen/C06Table.v || cp $B/C06Table.v.new $V/coq/gen/C06Table.v
 
+python3 $V/tools/c07table.py --coq $B/C07Table.v.new >>$log 2>&1 || fail c07table
+cmp -s $B/C07Table.v.new $V/coq/gen/C07Table.v || cp $B/C07Table.v.new $V/coq/gen/C07Table.v
+
 # 2. Coq (full .vo build)
 ( cd $V/coq && { [ -f Makefile ] && [ Makefile -nt _CoqProject ] || coq_makefile -f _CoqProject -o Makefile; } && timeout 2400 make -j16 ) >>$log 2>&1 || { echo "BUILD-FAILED stage=coq"; grep -B2 -A12 "Error" $log | head -60; exit 5; }
 
